@@ -4,7 +4,7 @@
 use crate::gen::*;
 use crate::rng::Rng;
 
-pub const N_SHAPES: u64 = 20;
+pub const N_SHAPES: u64 = 21;
 
 fn one_dynamic_block(r: &mut Rng, w: &mut BitW, toks: &[Tok], last: bool, maxlen: u8, no_rle: bool) {
     let cfg = GenCfg {
@@ -510,6 +510,31 @@ pub fn shape(idx: u64, r: &mut Rng) -> (String, Vec<u8>, Vec<u8>) {
             let toks = vec![Tok::Lit(r.byte())];
             apply(&mut plain, &toks);
             one_fixed_block(&mut w, &toks, true);
+        }
+        19 => {
+            name = "stored block whose LEN/NLEN field lies across a multiple of 64 KiB of the stream";
+            // one or two stored blocks in front, sized so that the length fields of the next stored block start at
+            // stream offsets 65530..65539 (or 64 KiB later): buffered readers refill exactly there
+            let v = ((idx / N_SHAPES) % 10) as usize;
+            let far = (idx / N_SHAPES / 10) % 2 == 1;
+            if far {
+                let d = r.bytes(65531);
+                plain.extend_from_slice(&d);
+                one_stored_block(&mut w, &d, false, 0);
+            }
+            let d = r.bytes(65524 + v);
+            plain.extend_from_slice(&d);
+            one_stored_block(&mut w, &d, false, 0);
+            let l = 1 + r.usize_below(300);
+            let d = r.bytes(l);
+            plain.extend_from_slice(&d);
+            let last = r.chance(1, 2);
+            one_stored_block(&mut w, &d, last, r.below(256) as u32);
+            if !last {
+                let toks: Vec<Tok> = (0..1 + r.usize_below(40)).map(|_| Tok::Lit(r.byte())).collect();
+                apply(&mut plain, &toks);
+                one_fixed_block(&mut w, &toks, true);
+            }
         }
         _ => {
             name = "single-literal and empty final blocks with every padding";
